@@ -305,8 +305,54 @@ func MavenUniverse(o MavenUOpts) *rapid.Generator[Universe] {
 			inheritReqs(t, &p)
 			u.Pkgs = append(u.Pkgs, p)
 		}
+		aimExclusions(t, &u)
 		return u
 	})
+}
+
+// aimExclusions retargets most exclusions at a package that is actually
+// reachable (one or two levels) below the dependency carrying the exclusion:
+// an exclusion naming something that is not in the subtree has no effect.
+func aimExclusions(t *rapid.T, u *Universe) {
+	below := map[string][]string{}
+	for _, p := range u.Pkgs {
+		seen := map[string]bool{}
+		for _, v := range p.Versions {
+			for _, r := range v.Reqs {
+				if !seen[r.Name] && !strings.Contains(r.Type, "management") {
+					seen[r.Name] = true
+					below[p.Name] = append(below[p.Name], r.Name)
+				}
+			}
+		}
+	}
+	for pi := range u.Pkgs {
+		for vi := range u.Pkgs[pi].Versions {
+			reqs := u.Pkgs[pi].Versions[vi].Reqs
+			for ri := range reqs {
+				const key = "MavenExclusions "
+				i := strings.Index(reqs[ri].Type, key)
+				if i < 0 {
+					continue
+				}
+				cands := append([]string(nil), below[reqs[ri].Name]...)
+				for _, d := range below[reqs[ri].Name] {
+					cands = append(cands, below[d]...)
+				}
+				if len(cands) == 0 || rapid.IntRange(0, 9).Draw(t, "aimex") >= 7 {
+					continue
+				}
+				target := rapid.SampledFrom(cands).Draw(t, "aimextarget")
+				rest := reqs[ri].Type[i+len(key):]
+				if j := strings.IndexByte(rest, ','); j >= 0 {
+					rest = rest[j:] // keep the other exclusions
+				} else {
+					rest = ""
+				}
+				reqs[ri].Type = reqs[ri].Type[:i] + key + target + rest
+			}
+		}
+	}
 }
 
 // ---- PyPI ------------------------------------------------------------------------
